@@ -1,9 +1,11 @@
 /-
-  MODEL of the MsgPack read scopes (include/bitserializer/msgpack_archive.h:470-905):
+  MODEL of the MsgPack read scopes (include/bitserializer/msgpack_archive.h:470-960):
   CMsgPackReadObjectScope (mStartPos/mSize/mIndex/mCurrentKey cursor, FindValueByKey with
   wrap-around, ResetKey, OnFinishChildScope, VisitKeys, destructor skip loop),
-  CMsgPackReadArrayScope (mSize/mIndex, CheckEnd), MsgPackReadRootScope — over a TOKEN-level
-  reader: the document is a list of tokens, a position is a token index. The byte-level
+  CMsgPackReadArrayScope (mSize/mIndex, CheckEnd, destructor skip loop), MsgPackReadRootScope
+  (Finalize) and the deferred-error path of the destructors (an exception of SkipValue inside a
+  destructor is caught, the first one is remembered in the SerializationContext and rethrown by
+  MsgPackReadRootScope::Finalize) — over a TOKEN-level reader: the document is a list of tokens, a position is a token index. The byte-level
   reader (src/msgpack/msgpack_readers.cpp) is modelled separately (BSVerif/MsgPack); what the
   scopes use of it is: ReadValue<T> (true + value / false after skipping the value by policy /
   MismatchedTypes), ReadArraySize, ReadMapSize, ReadValueType, SkipValue, Get/SetPosition.
@@ -74,6 +76,10 @@ def Rd.skipValue (r : Rd) : Except Err Rd :=
     match skipN r.rest 1 with
     | some rest' => .ok { r with pos := r.doc.length - rest'.length }
     | none => .error .parsing
+
+/-- where the reader stands after `SkipValue()` has thrown: the token stream is exhausted (`skipN` fails only
+    on `[]`), i.e. every complete token was consumed and the position is the end of the input -/
+def Rd.atEnd (r : Rd) : Rd := { r with pos := r.doc.length }
 
 /-- `HandleMismatchedTypesPolicy`: nil is always skipped; otherwise throw or skip exactly one value -/
 def Rd.mismatch (r : Rd) (t : Tok) : Except Err Rd :=
@@ -191,6 +197,18 @@ def objClose (o : Obj) (r : Rd) : Except Err (Obj × Rd) := do
   let (o1, r1) ← resetKey o r
   closeLoop (o1.size - o1.index) o1 r1
 
+/-! ### array scope: the destructor skips the elements that were not read -/
+
+/-- `for (; mIndex < mSize; ++mIndex) SkipValue();` with `n = mSize - mIndex` iterations left -/
+def arrCloseLoop : Nat → Rd → Except Err Rd
+  | 0, r => .ok r
+  | n + 1, r => do
+    let r1 ← r.skipValue
+    arrCloseLoop n r1
+
+/-- `~CMsgPackReadArrayScope` (the body of its `try`) -/
+def arrClose (size index : Nat) (r : Rd) : Except Err Rd := arrCloseLoop (size - index) r
+
 /-- `VisitKeys`: returns the keys in document order -/
 def visitLoop : Nat → Obj → Rd → List Key → Except Err (List Key × Obj × Rd)
   | 0, o, r, acc => .ok (acc.reverse, o, r)
@@ -231,14 +249,21 @@ inductive Ans where
   | flag (b : Bool)
   | closed
   | err (e : Err)
-  | terminate             -- exception escaped a destructor
+  | terminate             -- exception escaped a destructor (cannot happen any more: kept for the answer protocol)
   | badReq
   deriving Repr, DecidableEq
 
 structure St where
   rd : Rd
   stack : List Scope      -- innermost first; bottom is `root`
+  deferred : Option Err := none   -- `SerializationContext::mDeferredError` (first error caught in a destructor)
   deriving Repr
+
+/-- `SerializationContext::DeferError`: only the first error is kept -/
+def deferError (d : Option Err) (e : Err) : Option Err :=
+  match d with
+  | some d => some d
+  | none => some e
 
 def checkEnd (size index : Nat) : Except Err Unit :=
   if index = size then .error .outOfRange else .ok ()
@@ -258,12 +283,12 @@ def step (st : St) (req : Req) : Ans × St :=
     | .error e => (.err e, st)
   | .root :: tl, .openArr =>
     match st.rd.readArraySize with
-    | .ok (some n, r) => (.opened n, { rd := r, stack := .arr n 0 :: .root :: tl })
+    | .ok (some n, r) => (.opened n, { st with rd := r, stack := .arr n 0 :: .root :: tl })
     | .ok (none, r) => (.no, { st with rd := r })
     | .error e => (.err e, st)
   | .root :: tl, .openObj =>
     match st.rd.readMapSize with
-    | .ok (some n, r) => (.opened n, { rd := r, stack := .obj ⟨r.pos, n, 0, none⟩ :: .root :: tl })
+    | .ok (some n, r) => (.opened n, { st with rd := r, stack := .obj ⟨r.pos, n, 0, none⟩ :: .root :: tl })
     | .ok (none, r) => (.no, { st with rd := r })
     | .error e => (.err e, st)
   -- array scope --------------------------------------------------------------------------
@@ -272,64 +297,73 @@ def step (st : St) (req : Req) : Ans × St :=
     | .error e => (.err e, st)
     | .ok () =>
       match st.rd.readValue ty with
-      | .ok (some v, r) => (.val v, { rd := r, stack := .arr size (index + 1) :: tl })
-      | .ok (none, r) => (.no, { rd := r, stack := .arr size (index + 1) :: tl })
+      | .ok (some v, r) => (.val v, { st with rd := r, stack := .arr size (index + 1) :: tl })
+      | .ok (none, r) => (.no, { st with rd := r, stack := .arr size (index + 1) :: tl })
       | .error e => (.err e, st)
   | .arr size index :: tl, .openArr =>
     match checkEnd size index with
     | .error e => (.err e, st)
     | .ok () =>
       match st.rd.readArraySize with
-      | .ok (some n, r) => (.opened n, { rd := r, stack := .arr n 0 :: .arr size (index + 1) :: tl })
-      | .ok (none, r) => (.no, { rd := r, stack := .arr size (index + 1) :: tl })
+      | .ok (some n, r) => (.opened n, { st with rd := r, stack := .arr n 0 :: .arr size (index + 1) :: tl })
+      | .ok (none, r) => (.no, { st with rd := r, stack := .arr size (index + 1) :: tl })
       | .error e => (.err e, st)
   | .arr size index :: tl, .openObj =>
     match checkEnd size index with
     | .error e => (.err e, st)
     | .ok () =>
       match st.rd.readMapSize with
-      | .ok (some n, r) => (.opened n, { rd := r, stack := .obj ⟨r.pos, n, 0, none⟩ :: .arr size (index + 1) :: tl })
-      | .ok (none, r) => (.no, { rd := r, stack := .arr size (index + 1) :: tl })
+      | .ok (some n, r) => (.opened n, { st with rd := r, stack := .obj ⟨r.pos, n, 0, none⟩ :: .arr size (index + 1) :: tl })
+      | .ok (none, r) => (.no, { st with rd := r, stack := .arr size (index + 1) :: tl })
       | .error e => (.err e, st)
   | .arr size index :: _, .isEnd => (.flag (index = size), st)
-  | .arr _ _ :: tl, .close => (.closed, { st with stack := notifyParent tl })
+  | .arr size index :: tl, .close =>
+    match arrClose size index st.rd with
+    | .ok r => (.closed, { st with rd := r, stack := notifyParent tl })
+    -- SkipValue threw inside ~CMsgPackReadArrayScope: caught, deferred; the base destructor still notifies the parent
+    | .error e => (.closed, { rd := st.rd.atEnd, stack := notifyParent tl, deferred := deferError st.deferred e })
   -- object scope -------------------------------------------------------------------------
   | .obj o :: tl, .get k ty =>
     match objGet k ty o st.rd with
-    | .ok (some v, o', r) => (.val v, { rd := r, stack := .obj o' :: tl })
-    | .ok (none, o', r) => (.no, { rd := r, stack := .obj o' :: tl })
+    | .ok (some v, o', r) => (.val v, { st with rd := r, stack := .obj o' :: tl })
+    | .ok (none, o', r) => (.no, { st with rd := r, stack := .obj o' :: tl })
     | .error e => (.err e, st)
   | .obj o :: tl, .openArrK k =>
     match findValueByKey k o st.rd with
     | .error e => (.err e, st)
-    | .ok (false, o', r) => (.no, { rd := r, stack := .obj o' :: tl })
+    | .ok (false, o', r) => (.no, { st with rd := r, stack := .obj o' :: tl })
     | .ok (true, o', r) =>
       match r.readArraySize with
-      | .ok (some n, r') => (.opened n, { rd := r', stack := .arr n 0 :: .obj o' :: tl })
-      | .ok (none, r') => (.no, { rd := r', stack := .obj o'.onFinishChild :: tl })
+      | .ok (some n, r') => (.opened n, { st with rd := r', stack := .arr n 0 :: .obj o' :: tl })
+      | .ok (none, r') => (.no, { st with rd := r', stack := .obj o'.onFinishChild :: tl })
       | .error e => (.err e, st)
   | .obj o :: tl, .openObjK k =>
     match findValueByKey k o st.rd with
     | .error e => (.err e, st)
-    | .ok (false, o', r) => (.no, { rd := r, stack := .obj o' :: tl })
+    | .ok (false, o', r) => (.no, { st with rd := r, stack := .obj o' :: tl })
     | .ok (true, o', r) =>
       match r.readMapSize with
-      | .ok (some n, r') => (.opened n, { rd := r', stack := .obj ⟨r'.pos, n, 0, none⟩ :: .obj o' :: tl })
-      | .ok (none, r') => (.no, { rd := r', stack := .obj o'.onFinishChild :: tl })
+      | .ok (some n, r') => (.opened n, { st with rd := r', stack := .obj ⟨r'.pos, n, 0, none⟩ :: .obj o' :: tl })
+      | .ok (none, r') => (.no, { st with rd := r', stack := .obj o'.onFinishChild :: tl })
       | .error e => (.err e, st)
   | .obj o :: tl, .visit =>
     match objVisit o st.rd with
-    | .ok (ks, o', r) => (.keys ks, { rd := r, stack := .obj o' :: tl })
+    | .ok (ks, o', r) => (.keys ks, { st with rd := r, stack := .obj o' :: tl })
     | .error e => (.err e, st)
   | .obj o :: tl, .close =>
     match objClose o st.rd with
-    | .ok (_, r) => (.closed, { rd := r, stack := notifyParent tl })
-    | .error _ => (.terminate, st)     -- SkipValue threw inside ~CMsgPackReadObjectScope
+    | .ok (_, r) => (.closed, { st with rd := r, stack := notifyParent tl })
+    -- SkipValue threw inside ~CMsgPackReadObjectScope: caught, deferred; the base destructor still notifies the parent
+    | .error e => (.closed, { rd := st.rd.atEnd, stack := notifyParent tl, deferred := deferError st.deferred e })
   | _, _ => (.badReq, st)
 
-/-- run a request list; an error answer ends the run (the exception propagates to the caller) -/
+/-- run a request list; an error answer ends the run (the exception propagates to the caller);
+    after the last request `Finalize()` rethrows the deferred error, if any -/
 def run : St → List Req → List Ans
-  | _, [] => []
+  | st, [] =>
+    match st.deferred with
+    | some e => [.err e]
+    | none => []
   | st, q :: qs =>
     match step st q with
     | (.err e, _) => [.err e]
@@ -337,6 +371,6 @@ def run : St → List Req → List Ans
     | (.badReq, _) => [.badReq]
     | (a, st') => a :: run st' qs
 
-def initSt (doc : List Tok) (mis : Mis) : St := ⟨⟨doc, 0, mis⟩, [.root]⟩
+def initSt (doc : List Tok) (mis : Mis) : St := ⟨⟨doc, 0, mis⟩, [.root], none⟩
 
 end BSVerif.Scope
